@@ -1,5 +1,6 @@
 import Slu.Model.Ledger
 import Slu.Gen.LeakSites
+import Slu.Gen.Ownership
 import SluProofs.Lemmas.Ledger
 /-
 C19 — No memory error or leak over any documented API lifecycle.
@@ -20,8 +21,13 @@ C19 — No memory error or leak over any documented API lifecycle.
 The C code is tied to this specification by the `lifecycle*` harness families (per-operation live
 block counts, double-free counter, ASan/UBSan, poison differential) — see tools/props.d/C19.py — and,
 for the "no call-internal block survives the call / nothing of the caller is freed" half, to the source
-TEXT on every run: `no_local_block_escapes_unreleased` at the end of this file (translator
-tools/leakscan.py -> Slu/Gen/LeakSites.lean).
+TEXT on every run: `no_local_block_escapes_unreleased` in this file (translator
+tools/leakscan.py -> Slu/Gen/LeakSites.lean); and, for the OBJECT half - which blocks an object consists of, that its
+documented `Destroy_*` / `StatFree` frees exactly those, that its constructors store exactly those, fresh or taken from the
+caller as the specification says - by `destroy_frees_what_is_owned`, `constructors_allocate_what_is_owned` and
+`ownership_scan_complete` at the end of this file (translator tools/ownscan.py -> Slu/Gen/Ownership.lean, compared with the
+table `Slu.Ledger.allSpecs` / `specOwned` of Slu/Model/Ledger.lean, whose library-allocated paths are shown to number
+`Obj.blocks`).
 -/
 namespace Slu.C19
 open Slu.Ledger
@@ -469,8 +475,9 @@ What this establishes: the "call-internal blocks do not survive the call" (`temp
 caller owns" halves of the ledger specification hold of the TEXT of each routine, for every path its control-flow
 graph has, on every run (an `if`-guarded release counts only when the guard provably kept its value).  What it
 does **not** establish: anything about blocks kept in memory the scanner does not follow (arrays of pointers,
-fields of local structs — flagged, two reviewed cases), about what a `Destroy_*` call frees relative to what the
-object borrowed from the caller, or about the run-time counts per object (the ledger harness compares those).
+fields of local structs — flagged, two reviewed cases), or about the run-time counts per object (the ledger harness
+compares those); what a `Destroy_*` routine frees relative to what the object holds is the subject of
+`destroy_frees_what_is_owned` below.
 The scanner is trusted (built-in self test; allocation calls of the syntax tree cross-checked line by line with
 the text of every file; errs towards reporting). -/
 theorem no_local_block_escapes_unreleased : ∀ s ∈ leakSites, siteOk s = true := by
@@ -534,5 +541,211 @@ example : siteOk {
     releasedOnAllPaths := true, freed := true, handedOver := false, nullChecked := false, unstableGuard := false, doubleFree := false,
     freeAfterHandover := false, lost := false, escapes := false, addrTaken := false, notUnderstood := false, toGlobal := false,
     freesParam := true, freesBorrowed := false, leaks := [] } = false := by decide
+
+
+/-! ### What each Destroy_* frees is what the object owns; what each constructor stores is what the specification says (regenerated from the source on every run)
+
+`lifecycle_no_leak` counts blocks per OBJECT (`Obj.blocks`), and `destroy o` removes all of them.  The table
+`Slu.Ledger.allSpecs` names those blocks as access paths, with their origin, constructor(s) and documented releaser;
+`tools/ownscan.py` extracts from the clang syntax tree of every file of SRC/ which access paths each routine releases
+(with the enclosing conditions, double release, use after release) and which it sets to a fresh block or to a pointer it
+was handed (`Slu/Gen/Ownership.lean`).  The theorems below compare the two, by kernel evaluation over the regenerated
+table. -/
+
+/-- Disagreements between the source and the specification in which the SOURCE is at fault (a path the documented releaser
+never frees), by finding of known_findings.json.  None today: the scan of the pinned tree found the ten object
+specifications and the text of their releasers / constructors in agreement (the early returns of [sdcz]gstrf that skip
+`[sdcz]LUWorkFree`, open finding D9, are leaking EXITS of a routine, listed in `knownLeakSites` above, not a path missing
+from a releaser).  An entry here excuses exactly one (releaser, path) pair and must name its finding. -/
+structure OwnershipGap where
+  finding : String
+  releaser : String
+  path : String
+deriving DecidableEq
+
+def knownOwnershipGaps : List OwnershipGap := []
+
+def releaserRecs (routine : String) : List OwnRec :=
+  ownTable.filter fun r => r.role == "releaser" && r.routine == routine
+
+def ctorRecs (routine param : String) : List OwnRec :=
+  ownTable.filter fun r => r.role == "constructor" && r.routine == routine && r.param == param
+
+/-- the documented releaser of `s` frees, unconditionally and in its own text, paths of its one parameter that the
+specification says the object owns, none twice, none used after its release - and every owned path exactly once
+(unless the pair is an open finding of `knownOwnershipGaps`) -/
+def releaserOkOn (tbl : List OwnRec) (s : ObjSpec) : Bool :=
+  let rs := tbl.filter fun r => r.role == "releaser" && r.routine == s.releaser
+  (rs.all fun r => r.param == s.releaserParam && (specOwned s).contains r.path && r.guard == [] && r.via == "" &&
+                   r.kind == "freed" && !r.twice && !r.useAfterFree) &&
+  ((specOwned s).all fun p =>
+    (rs.filter fun r => r.path == p).length == 1 ||
+    ((rs.filter fun r => r.path == p).length == 0 && knownOwnershipGaps.any fun g => g.releaser == s.releaser && g.path == p))
+
+def releaserOk (s : ObjSpec) : Bool := releaserOkOn ownTable s
+
+def originOk (o : Origin) (r : OwnRec) : Bool :=
+  match o with
+  | .lib => r.kind == "fresh"
+  | .caller a => r.kind == "borrowed" && r.source == a
+  | .glu f => r.kind == "borrowed" && r.source == "Glu->" ++ f
+  | .view src => r.kind == "borrowed" && r.source == src
+
+/-- constructor `c` (routine, parameter) sets every path of the specification, each time from the origin the specification
+names (fresh block / the caller's array of that name / that array of Glu / that field of the other object), and stores no
+other pointer into the object -/
+def ctorOkOn (tbl : List OwnRec) (s : ObjSpec) (c : String × String) : Bool :=
+  let rs := tbl.filter fun r => r.role == "constructor" && r.routine == c.1 && r.param == c.2
+  (s.paths.all fun p => (rs.any fun r => r.path == p.path) && ((rs.filter fun r => r.path == p.path).all (originOk p.origin))) &&
+  (rs.all fun r => s.paths.any fun p => p.path == r.path)
+
+def ctorOk (s : ObjSpec) (c : String × String) : Bool := ctorOkOn ownTable s c
+
+/-- The arrays of `GlobalLU_t` that [sdcz]gstrf wraps into L and U: (field of Glu, the object and path it becomes).  -/
+def gluArrays : List (String × String) :=
+  [("lusup", "L->Store->nzval"), ("xlusup", "L->Store->nzval_colptr"), ("lsub", "L->Store->rowind"), ("xlsub", "L->Store->rowind_colptr"),
+   ("supno", "L->Store->col_to_sup"), ("xsup", "L->Store->sup_to_col"), ("ucol", "U->Store->nzval"), ("usub", "U->Store->rowind"),
+   ("xusub", "U->Store->colptr")]
+
+/-- `[sdcz]LUMemInit` (own text) fills `Glu->f` from the allocator only under `Glu->MemModel == SYSTEM`, from the caller's
+work area only in the other arm, from the growable storage layer ([sdcz]expand: C07/C08), or - re-factorization with
+`SamePattern_SameRowPerm` - with the very array the existing L / U holds at the path `f` is wrapped into (`back`): the
+round trip Glu -> L/U -> Glu is the identity on names -/
+def gluFieldOkOn (tbl : List OwnRec) (memInit f back : String) : Bool :=
+  let rs := tbl.filter fun r => r.role == "constructor" && r.routine == memInit && r.param == "Glu" && r.path == f && r.via == ""
+  (rs.any fun r => r.kind == "fresh" || r.kind == "storage") &&
+  rs.all fun r =>
+    (r.kind == "fresh" && r.guard.contains "Glu->MemModel == SYSTEM") ||
+    (r.kind == "workarea" && r.guard.contains "!(Glu->MemModel == SYSTEM)") ||
+    r.kind == "storage" ||
+    (r.kind == "borrowed" && r.source == back && r.guard.contains "!(fact != SamePattern_SameRowPerm)")
+
+/-- `[sdcz]LUWorkFree(iwork, dwork, Glu)`: the two work arrays under library allocation only, `Glu->expanders` always; and
+`[sdcz]LUMemInit` is where `Glu->expanders` is allocated, unconditionally -/
+def workFreeOkOn (tbl : List OwnRec) (p : String) : Bool :=
+  let rs := tbl.filter fun r => r.role == "releaser" && r.routine == p ++ "LUWorkFree"
+  (rs.map fun r => (r.param, r.path, r.guard)) ==
+    [("iwork", "", ["Glu->MemModel == SYSTEM"]), ("dwork", "", ["Glu->MemModel == SYSTEM"]), ("Glu", "expanders", [])] &&
+  (rs.all fun r => !r.twice && !r.useAfterFree) &&
+  (tbl.any fun r => r.role == "constructor" && r.routine == p ++ "LUMemInit" && r.param == "Glu" && r.path == "expanders" &&
+                    r.kind == "fresh" && r.guard == [] && r.via == "")
+
+/-- routines that hand the caller three fresh arrays through output parameters (which `[sdcz]Create_CompCol_Matrix` then
+wraps): (routine, its three output parameters) -/
+def arrayProducers : List (String × List String) :=
+  (prec4 "" "allocateA").map (·, ["a", "asub", "xa"]) ++ (prec4 "" "CompRow_to_CompCol").map (·, ["at", "rowind", "colptr"]) ++
+  (prec4 "" "readhb" ++ prec4 "" "readrb" ++ prec4 "" "readtriple" ++ prec4 "" "readMM").map (·, ["nzval", "rowind", "colptr"])
+
+def producerOkOn (tbl : List OwnRec) (c : String × List String) : Bool :=
+  c.2.all fun prm =>
+    let rs := tbl.filter fun r => r.role == "constructor" && r.routine == c.1 && r.param == prm && r.path == "*"
+    !rs.isEmpty && rs.all fun r => r.kind == "fresh"
+
+/-- **C19 `destroy_frees_what_is_owned`**: in the current source, for every object specification of
+`Slu.Ledger.allSpecs` (CompCol, CompRow, Dense, SuperLUStat_t, the permuted view, SuperNode, and L and U under library
+allocation and in a caller work area) the documented releaser - `Destroy_CompCol_Matrix`, `Destroy_CompRow_Matrix`,
+`Destroy_Dense_Matrix`, `StatFree`, `Destroy_CompCol_Permuted`, `Destroy_SuperNode_Matrix`, `Destroy_SuperMatrix_Store` -
+frees EXACTLY the access paths `specOwned` lists (header block included): each once, unconditionally, never a path
+outside the list (so never the arrays a view shares with another object, never the work-area pieces), none twice, none
+dereferenced after its release; `[sdcz]LUWorkFree` releases `Glu->expanders` always and the two work arrays under
+library allocation only; and the block count of every ledger object is the number of its library-allocated paths. -/
+theorem destroy_frees_what_is_owned :
+    (∀ s ∈ allSpecs, releaserOk s = true) ∧
+    (∀ p ∈ ["s", "d", "c", "z"], workFreeOkOn ownTable p = true) ∧
+    (∀ o : Obj, ∀ s ∈ o.specs, s ∈ allSpecs ∧ o.blocks = (specLibrary s).length) := by
+  have k1 : ∀ s ∈ [specCompCol, specCompRow], s ∈ allSpecs ∧ 1 = (specLibrary s).length := by decide
+  have k2 : ∀ s ∈ [specDense], s ∈ allSpecs ∧ 1 = (specLibrary s).length := by decide
+  have k3 : ∀ s ∈ [specStat], s ∈ allSpecs ∧ 3 = (specLibrary s).length := by decide
+  have k4 : ∀ s ∈ [specPermuted], s ∈ allSpecs ∧ 3 = (specLibrary s).length := by decide
+  have k5 : ∀ ws : Bool, ∀ s ∈ [specL ws], s ∈ allSpecs ∧ (if ws then 1 else 7) = (specLibrary s).length := by decide
+  have k6 : ∀ ws : Bool, ∀ s ∈ [specU ws], s ∈ allSpecs ∧ (if ws then 1 else 4) = (specLibrary s).length := by decide
+  refine ⟨by decide +kernel, by decide +kernel, ?_⟩
+  intro o s hs
+  cases o with
+  | mat h => exact k1 s hs
+  | dense h => exact k2 s hs
+  | stat h => exact k3 s hs
+  | acview h => exact k4 s hs
+  | facL h ws => exact k5 ws s hs
+  | facU h ws => exact k6 ws s hs
+
+/-- **C19 `constructors_allocate_what_is_owned`**: in the current source every documented constructor of every object
+specification sets every path of the specification, from the origin the specification names - `[sdcz]Create_CompCol_Matrix`
+allocates `Store` and BORROWS nzval / rowind / colptr (which `Destroy_CompCol_Matrix` later frees: the matrix takes the
+caller's arrays over, documented SuperLU behaviour), `sp_preorder` allocates `Store`, `colbeg`, `colend` and shares A's
+`nzval`, `rowind`, `[sdcz]gstrf` / `[sdcz]gsitrf` allocate the two `Store` headers (through `[sdcz]Create_SuperNode_Matrix` /
+`[sdcz]Create_CompCol_Matrix`) around the nine arrays of Glu, … - and stores no other pointer into the object; the nine
+arrays of Glu come, in `[sdcz]LUMemInit`, from the allocator exactly under `Glu->MemModel == SYSTEM`, from the work area
+otherwise, or are the arrays of the existing L and U at the same paths; the readers, `[sdcz]allocateA` and
+`[sdcz]CompRow_to_CompCol` hand out fresh arrays; `[sdcz]Copy_CompCol_Matrix` stores no pointer at all. -/
+theorem constructors_allocate_what_is_owned :
+    (∀ s ∈ allSpecs, ∀ c ∈ s.ctors, ctorOk s c = true) ∧
+    (∀ p ∈ ["s", "d", "c", "z"], ∀ g ∈ gluArrays, gluFieldOkOn ownTable (p ++ "LUMemInit") g.1 g.2 = true) ∧
+    (∀ c ∈ arrayProducers, producerOkOn ownTable c = true) ∧
+    (∀ r ∈ ownTable, r.routine ∉ prec4 "" "Copy_CompCol_Matrix") := by
+  refine ⟨by decide +kernel, by decide +kernel, by decide +kernel, by decide +kernel⟩
+
+/-- the scan succeeded and saw the whole library: self check passed, every release of something reached from a parameter
+got an access path, all of SRC/ was parsed, and the table has (at least) the expected numbers of records and of specified
+objects - it cannot silently become empty or partial -/
+theorem ownership_scan_complete :
+    ownOk = true ∧ ownUnresolved = 0 ∧ 180 ≤ ownFiles ∧ 480 ≤ ownFunctions ∧
+    150 ≤ (ownTable.filter fun r => r.role == "releaser").length ∧
+    600 ≤ (ownTable.filter fun r => r.role == "constructor").length ∧
+    24 = (ownTable.filter fun r => r.role == "releaser" && (allSpecs.map (·.releaser)).contains r.routine).length ∧
+    allSpecs.length = 10 ∧ ((allSpecs.map fun s => (specOwned s).length) = [4, 4, 2, 3, 3, 7, 7, 1, 4, 1]) ∧
+    ((allSpecs.map fun s => s.ctors.length) = [4, 4, 4, 1, 1, 4, 8, 8, 8, 8]) ∧ knownOwnershipGaps.length = 0 := by
+  decide +kernel
+
+/-! Non-vacuity: tables that violate each predicate. -/
+
+def sampleFree (routine path : String) (seq : Nat) : OwnRec :=
+  { routine := routine, role := "releaser", param := "A", path := path, kind := "freed", source := "", guard := [], via := "",
+    inType := "", seq := seq, line := 0, twice := false, useAfterFree := false }
+
+def sampleStore (routine param path kind source : String) : OwnRec :=
+  { routine := routine, role := "constructor", param := param, path := path, kind := kind, source := source, guard := [], via := "",
+    inType := "", seq := 0, line := 0, twice := false, useAfterFree := false }
+
+/-- the faithful text of `Destroy_Dense_Matrix` passes … -/
+example : releaserOkOn [sampleFree "Destroy_Dense_Matrix" "Store->nzval" 0, sampleFree "Destroy_Dense_Matrix" "Store" 1] specDense = true := by decide
+/-- … a `Destroy_Dense_Matrix` that forgets the header fails (a leak), … -/
+example : releaserOkOn [sampleFree "Destroy_Dense_Matrix" "Store->nzval" 0] specDense = false := by decide
+/-- … a `Destroy_CompCol_Permuted` that also frees the row indices it shares with A fails (frees what it does not own), … -/
+example : releaserOkOn [sampleFree "Destroy_CompCol_Permuted" "Store->colbeg" 0, sampleFree "Destroy_CompCol_Permuted" "Store->colend" 1,
+    sampleFree "Destroy_CompCol_Permuted" "Store->rowind" 2, sampleFree "Destroy_CompCol_Permuted" "Store" 3] specPermuted = false := by decide
+/-- … a deep `Destroy_SuperMatrix_Store` fails for factors in a work area, … -/
+example : releaserOkOn [sampleFree "Destroy_SuperMatrix_Store" "Store->nzval" 0, sampleFree "Destroy_SuperMatrix_Store" "Store" 1] (specU true) = false := by decide
+/-- … as do a release under a condition, a double release and a use after the release. -/
+example : releaserOkOn [{ sampleFree "Destroy_Dense_Matrix" "Store->nzval" 0 with guard := ["A->Stype == SLU_DN"] },
+    sampleFree "Destroy_Dense_Matrix" "Store" 1] specDense = false := by decide
+example : releaserOkOn [{ sampleFree "Destroy_Dense_Matrix" "Store" 0 with useAfterFree := true },
+    sampleFree "Destroy_Dense_Matrix" "Store->nzval" 1] specDense = false := by decide
+example : releaserOkOn [{ sampleFree "Destroy_Dense_Matrix" "Store->nzval" 0 with twice := true }, { sampleFree "Destroy_Dense_Matrix" "Store->nzval" 1 with twice := true },
+    sampleFree "Destroy_Dense_Matrix" "Store" 2] specDense = false := by decide
+
+/-- the faithful text of `dCreate_Dense_Matrix` passes; one that copies the caller's array into a fresh block (the caller's
+array would then never be the matrix's, and `Destroy_Dense_Matrix` would free the copy only) fails; one that forgets to set
+`nzval` fails; one that stores a further pointer fails -/
+example : ctorOkOn [sampleStore "dCreate_Dense_Matrix" "X" "Store" "fresh" "superlu_malloc",
+    sampleStore "dCreate_Dense_Matrix" "X" "Store->nzval" "borrowed" "x"] specDense ("dCreate_Dense_Matrix", "X") = true := by decide
+example : ctorOkOn [sampleStore "dCreate_Dense_Matrix" "X" "Store" "fresh" "superlu_malloc",
+    sampleStore "dCreate_Dense_Matrix" "X" "Store->nzval" "fresh" "doubleMalloc"] specDense ("dCreate_Dense_Matrix", "X") = false := by decide
+example : ctorOkOn [sampleStore "dCreate_Dense_Matrix" "X" "Store" "fresh" "superlu_malloc"] specDense ("dCreate_Dense_Matrix", "X") = false := by decide
+example : ctorOkOn [sampleStore "dCreate_Dense_Matrix" "X" "Store" "fresh" "superlu_malloc", sampleStore "dCreate_Dense_Matrix" "X" "Store->nzval" "borrowed" "x",
+    sampleStore "dCreate_Dense_Matrix" "X" "Store->scale" "fresh" "doubleMalloc"] specDense ("dCreate_Dense_Matrix", "X") = false := by decide
+
+/-- `Glu->xsup` allocated without the test of the memory model fails; so does a re-use of the wrong array of L -/
+example : gluFieldOkOn [sampleStore "dLUMemInit" "Glu" "xsup" "fresh" "int32Malloc"] "dLUMemInit" "xsup" "L->Store->sup_to_col" = false := by decide
+example : gluFieldOkOn [{ sampleStore "dLUMemInit" "Glu" "xsup" "fresh" "int32Malloc" with guard := ["Glu->MemModel == SYSTEM"] },
+    { sampleStore "dLUMemInit" "Glu" "xsup" "borrowed" "L->Store->col_to_sup" with guard := ["!(fact != SamePattern_SameRowPerm)"] }]
+    "dLUMemInit" "xsup" "L->Store->sup_to_col" = false := by decide
+example : gluFieldOkOn [{ sampleStore "dLUMemInit" "Glu" "xsup" "fresh" "int32Malloc" with guard := ["Glu->MemModel == SYSTEM"] },
+    { sampleStore "dLUMemInit" "Glu" "xsup" "borrowed" "L->Store->sup_to_col" with guard := ["!(fact != SamePattern_SameRowPerm)"] }]
+    "dLUMemInit" "xsup" "L->Store->sup_to_col" = true := by decide
+
+/-- a reader that hands back one of the caller's own arrays fails -/
+example : producerOkOn [sampleStore "dreadhb" "nzval" "*" "fresh" "doubleMalloc", sampleStore "dreadhb" "rowind" "*" "fresh" "intMalloc",
+    sampleStore "dreadhb" "colptr" "*" "borrowed" "work"] ("dreadhb", ["nzval", "rowind", "colptr"]) = false := by decide
 
 end Slu.C19
